@@ -290,9 +290,9 @@ def run(ctx):
     add("s3f3", gen_scope(ctx, "s3f3", 3, 3, [3]), 3)  # n_node = n_face = n_edge = 3 occurs here
     add("s4f2", gen_scope(ctx, "s4f2", 4, 2, [3, 4], npat=2), 4, pick=None if thorough else 2000)
     if thorough:
-        add("s5f2", gen_scope(ctx, "s5f2", 5, 2, [3, 4, 5]), 5, pick=30000)
+        add("s5f2", gen_scope(ctx, "s5f2", 5, 2, [3, 4, 5]), 5, pick=20000)
         add("c5f3", gen_scope(ctx, "c5f3", 5, 3, [3, 4, 5], canon=True, npat=2), 5)
-        add("s4f3", gen_scope(ctx, "s4f3", 4, 3, [3, 4], invs=["TypeOK", "L2_Partition"]), 4, pick=12000)
+        add("s4f3", gen_scope(ctx, "s4f3", 4, 3, [3, 4], invs=["TypeOK", "L2_Partition"]), 4, pick=8000)
     else:
         add("s5f2", gen_scope(ctx, "s5f2", 5, 2, [3, 5], invs=["TypeOK", "L2_Partition"]), 5, pick=800)
         add("c5f3", gen_scope(ctx, "c5f3", 5, 3, [3, 4, 5], canon=True), 5, pick=1000)
